@@ -59,10 +59,17 @@ def run_verus_unit(cfg, work, seed, rlimit, repo=None):
     res['verified_fns'] = c['verified']
     res['obligations'] = list(g.obligations)
     res['assumed'] = list(g.assumed)
+    res['contract_text'] = g.contract_text
     res['edit_stats'] = g.edit_stats
     res['items'] = g.items
     res['failed'] = c['failed']
     res['undecided'] = c['undecided']
+    if cfg.get('safety_not_property'):
+        # in this unit arithmetic / callee-precondition safety is not part of the property (e.g. `len + 1` of a Vec
+        # cannot overflow in Rust but Verus does not know): a failing safety obligation alone is undecided, not refuted
+        for n in [n for n in res['failed'] if n.endswith('/safety')]:
+            res['undecided'].append('safety obligation %s not discharged (not a property clause in this unit): %s'
+                                    % (n, '; '.join(res['failed'].pop(n))[:300]))
     res['raw'] = r.get('raw', '')[-6000:]
     res['assumption_scan'] = common.scan_assumptions(g.text, 'verus unit %s (generated text incl. preamble)' % cfg['unit'])
     for f in g.functions:
@@ -390,11 +397,31 @@ def main():
                                   'failed': sorted(r2['failed']), 'undecided': r2['undecided'][:3]})
 
     obligations, discharged, failed, undecided, assumed = [], [], {}, [], []
+    linked = []
     bounded, bounded_ok = [], []
     for r in vres:
         obligations += [n for n in r['obligations'] if mine(n)]
         discharged += [n for n in r['discharged'] if mine(n)]
-        assumed += [n for n in r['assumed'] if mine(n)]
+        for n in r['assumed']:
+            if not mine(n):
+                continue
+            # an assumed callee contract that another unit of THIS run discharges with the same text
+            # (same function, same requires, same clause) is linked, not assumed
+            _, qual, cl = n.split('/', 2)
+            label = cl.split('#', 1)[1] if '#' in cl else None
+            link = None
+            for r2 in vres:
+                if r2 is r:
+                    continue
+                n2 = '%s/%s/%s' % (r2['unit'], qual, cl)
+                ct1, ct2 = r.get('contract_text', {}).get(qual), r2.get('contract_text', {}).get(qual)
+                if (n2 in r2['discharged'] and ct1 and ct2 and ct1['requires'] == ct2['requires']
+                        and label in ct1['ensures'] and ct1['ensures'][label] == ct2['ensures'].get(label)):
+                    link = n2
+            if link:
+                linked.append('%s == %s (callee contract discharged in unit %s)' % (n, link, link.split('/')[0]))
+            else:
+                assumed.append(n)
         for n, d in r['failed'].items():
             if mine(n):
                 failed[n] = d
@@ -545,7 +572,7 @@ def main():
 
     wall = time.time() - t0
     write_evidence(pid, P, tier, seed, wall, vres, kres, obligations, discharged, bounded, bounded_ok, assumed, failed,
-                   undecided, violations, known_hits, stability, side_res, sweep, baseline, bnres)
+                   undecided, violations, known_hits, stability, side_res, sweep, baseline, bnres, linked)
 
     for n, what in known_hits:
         log('KNOWN-FINDING: property=%s %s (%s)' % (pid, n, what))
@@ -569,7 +596,7 @@ def main():
 
 
 def write_evidence(pid, P, tier, seed, wall, vres, kres, obligations, discharged, bounded, bounded_ok, assumed, failed,
-                   undecided, violations, known_hits, stability, side_res, sweep, baseline, bnres=None):
+                   undecided, violations, known_hits, stability, side_res, sweep, baseline, bnres=None, linked=None):
     samples = []
     for r in vres:
         for n in r['discharged'][:400]:
@@ -654,6 +681,7 @@ def write_evidence(pid, P, tier, seed, wall, vres, kres, obligations, discharged
             'bounded': {'obligations': len(bounded), 'discharged': len(bounded_ok), 'names': bounded,
                         'note': 'bounded stand-ins: never counted in obligations/discharged above'},
             'assumed_clauses': assumed,
+            'linked_callee_contracts': linked or [],
             'baseline_obligations': len(baseline),
             'failed': {n: d[:3] for n, d in failed.items()},
             'undecided': [str(u)[:500] for u in undecided],
